@@ -22,7 +22,7 @@ RULE = ("case kinds: (cyc) digraph + trusted set X -> every maximal safe sequenc
 CASE_TIMEOUT = {"quick": 60, "thorough": 300}
 REQUIRED_OBS = {"c06.cyc_sequences_judged": 300, "c06.incompatible_pairs_judged": 50, "c06.dag_safe_paths_judged": 300,
                 "c06.dag_safe_sequences_judged": 300, "c06.flow_safe_paths_judged": 100, "c06.pruned_edges_judged": 100,
-                "c06.thread_stress_runs": 50}
+                "c06.thread_stress_runs": 50, "c06.dag_model_safe_lists_judged": 100}
 ASSUMPTIONS = ["X contains only edges of the caller's graph (never the synthetic source/sink edges), as every in-repository caller guarantees",
                "flow-safety is judged against real-weighted decompositions (a real-weighted decomposition avoiding the path is a valid witness)"]
 EXHAUSTIVE = {"quick": False, "thorough": False}
@@ -68,6 +68,17 @@ def gen_cases(tier, seed):
         cases.append({"kind": "prune", "spec": gen.spec(nodes, edges, eattr={e: {"flow": rng.randint(1, 5)} for e in edges}),
                       "cls": rng.choice(["kPathCoverCycles", "kPathCoverCycles", "kMinPathErrorCycles", "kLeastAbsErrorsCycles"]),
                       "k": rng.randint(1, 4), "ignore": gen.jl(ign), "oo": rng.choice([{}, {"optimize_with_safe_sequences_allow_geq_constraints": False}, {"optimize_with_max_safe_antichain_as_subset_constraints": True}])})
+    for i in range(n // 2):
+        rng = gen.rng_for("C06m", seed, i)
+        nodes, edges = gen.dag_any(rng, 11)
+        P = gen.all_paths(nodes, edges)
+        cons = gen.rand_subpath_constraints(rng, P, n=rng.randint(1, 2)) if P else []
+        r = rng.random()
+        cov, covlen = (1.0, None) if r < 0.4 else ((rng.choice([0.5, 0.75]), None) if r < 0.7 else (1.0, rng.choice([0.4, 0.7, 1.0])))
+        lengths = [[u, v, rng.choice([1, 3, 7])] for (u, v) in edges if rng.random() < 0.7] if covlen else []
+        cases.append({"kind": "dagmodel", "spec": gen.spec(nodes, edges, eattr={(u, v): {"len": l} for u, v, l in lengths}), "cons": gen.jl(cons), "cov": cov, "covlen": covlen,
+                      "lengths": lengths, "k": rng.randint(1, 3), "cls": rng.choice(["kPathCover", "kPathCover", "kLeastAbsErrors"]),
+                      "oo": rng.choice([{}, {"optimize_with_safe_paths": False, "optimize_with_safe_sequences": True}, {"optimize_with_safe_paths": True}, {"optimize_with_safe_paths": False}])})
     if tier == "thorough":
         for nodes, edges in small_scope_graphs(3, True):
             cases.append({"kind": "cyc", "spec": gen.spec(nodes, edges), "X": gen.jl(edges), "also_subsets": True})
@@ -259,9 +270,56 @@ def run_prune(case, viol, obs):
     return hashlib.sha1(desc.encode()).hexdigest()[:14], nontriv
 
 
+def run_dagmodel(case, viol, obs):
+    """safe lists a constructed (never solved) DAG model derived from trusted edges and from its subpath constraints"""
+    G = gen.build(case["spec"])
+    for e in G.edges:
+        G.edges[e]["flow"] = 1 + (hash(e) % 3)
+    cons = [gen.tupl(c) for c in case["cons"]]
+    kw = dict(k=case["k"], optimization_options=dict(case["oo"]), solver_options=dict(SO))
+    if cons:
+        kw["subpath_constraints"] = [list(c) for c in cons]
+        if case["covlen"]:
+            kw["subpath_constraints_coverage_length"] = case["covlen"]; kw["length_attr"] = "len"
+        else:
+            kw["subpath_constraints_coverage"] = case["cov"]
+    if case["cls"] != "kPathCover":
+        kw.update(flow_attr="flow", weight_type=int, trusted_edges_for_safety=list(G.edges))
+    r = M.safe_call(getattr(fp, case["cls"]), G, **kw)
+    desc = f"{case['cls']} edges={list(G.edges)} cons={cons} cov={case['cov']} covlen={case['covlen']} lengths={case['lengths']} oo={case['oo']}"
+    if r[0] != "ok":
+        obs["c06.dagmodel_ctor_failed"] += 1
+        return None, False
+    m = r[1]; st = m.G
+    trusted = [tuple(e) for e in (m.trusted_edges_for_safety or [])]
+    L = {(u, v): l for u, v, l in case["lengths"]}
+    P = [ref.path_edges(p) for p in ref.st_paths(st, [st.source], [st.sink])]
+    def covers(pe, c):
+        if case["covlen"]:
+            return sum(L.get(e, 1) for e in c if e in pe) >= sum(L.get(e, 1) for e in c) * case["covlen"] - 1e-9
+        return sum(1 for e in c if e in pe) >= len(c) * case["cov"] - 1e-9
+    nontriv = False
+    for sl in (m.safe_lists or []):
+        sl_ = [tuple(e) for e in sl]
+        obs["c06.dag_model_safe_lists_judged"] += 1
+        if len(sl_) >= 2:
+            nontriv = True
+        # safe iff some trusted item forces it: a trusted edge all of whose paths contain it, or a constraint all of whose admissible paths contain it
+        ok = any(not ref.exists_walk_avoiding(st, st.source, st.sink, sl_, [e]) for e in trusted if e in sl_)
+        if not ok:
+            for c in cons:
+                adm = [pe for pe in P if covers(set(pe), c)]
+                if adm and all(ref.contains_subseq(pe, sl_) for pe in adm):
+                    ok = True; break
+        if not ok:
+            viol.append({"sig": "C06/dag-model-safe-list-not-safe" + ("/from-partially-covered-constraint" if (case["covlen"] and case["covlen"] < 1) or case["cov"] < 1 else ""),
+                         "msg": f"safe list {sl_} of the constructed model is contained in a path of every cover neither through a trusted edge nor through a constraint; {desc}"})
+    return hashlib.sha1(desc.encode()).hexdigest()[:14], nontriv
+
+
 def run_case(case):
     viol = []; obs = collections.Counter()
-    out = {"cyc": run_cyc, "dag": run_dag, "flow": run_flow, "prune": run_prune}[case["kind"]](case, viol, obs)
+    out = {"cyc": run_cyc, "dag": run_dag, "flow": run_flow, "prune": run_prune, "dagmodel": run_dagmodel}[case["kind"]](case, viol, obs)
     key, nontriv = out if out else (None, False)
     seen = set(); outv = []
     for v in viol:
